@@ -4,6 +4,5 @@ INVARIANT TypeOK
 INVARIANT NoDuplicateLeaf
 INVARIANT AllLeavesVisitedAtStop
 INVARIANT NoTrialAfterExhaustion
-INVARIANT TrialsBounded
 INVARIANT AlgAgrees
 CHECK_DEADLOCK TRUE
